@@ -4,6 +4,7 @@ package main
 // stubs.
 
 import (
+	"os"
 	"fmt"
 	"go/types"
 	"reflect"
@@ -160,6 +161,9 @@ func (m *Machine) verifrt(name string, args []Value, g *Term, site ssa.Instructi
 		res := TS.True
 		for o, ga := range ra {
 			if gb, ok := rb[o]; ok {
+				if os.Getenv("SYMGO_DEBUG_DISJOINT") != "" && !And(ga, gb).IsFalse() {
+					fmt.Fprintf(os.Stderr, "[disjoint] shared object #%d %s (%v): %s  /  %s\n", o.id, o.name, o.typ, ga.String(), gb.String())
+				}
 				res = And(res, Not(And(ga, gb)))
 			}
 		}
@@ -537,7 +541,7 @@ func (m *Machine) jsonCopy(v Value, t types.Type, omitempty bool) Value {
 		if g.IsFalse() {
 			return &SliceV{Len: Const(64, 0)}
 		}
-		return &SliceV{Alts: []SliceAlt{{g, o, 0}}, Len: x.Len}
+		return &SliceV{Alts: []SliceAlt{{g, o, 0, 0}}, Len: x.Len}
 	case *types.Map:
 		x := v.(*MapV)
 		if len(x.Alts) == 0 {
